@@ -17,6 +17,7 @@ API
 ``t``                                  the ``Table`` (module-level, shared MetaData ``metadata``)
 ``rows(world)``                        list of row dicts of that world, in id order
 ``world_for(columns)``                 smallest world whose product covers these columns
+``iter_trees`` / ``count_trees``       lazy / counting variants of ``trees``
 ``trees(n, typ, ops=OPS)``             all typed ASTs (``vf.models.sql3vl`` node forms) with exactly n operator
                                        nodes and placeholder leaves; ``assign_columns`` gives leaves canonical
                                        distinct columns; ``literal_variants`` replaces one leaf by each literal
@@ -185,6 +186,43 @@ def trees(n, typ, ops=OPS):
                     out.append(_mk(kind, combo))
     _tree_cache[key] = out
     return out
+
+
+def iter_trees(n, typ, ops=OPS):
+    """the same trees in the same order as trees(n, typ) but generated lazily at the top level (sub-trees come from
+    the cached lists of the smaller sizes): for sizes whose full list would not fit comfortably in memory"""
+    if n == 0:
+        yield _HOLE[typ]
+        return
+    for kind, rt, args, fam in ops:
+        if rt != typ:
+            continue
+        for comp in _compositions(n - 1, len(args)):
+            subs = [trees(k, a, ops) for k, a in zip(comp, args)]
+            for combo in itertools.product(*subs):
+                yield _mk(kind, combo)
+
+
+_count_cache = {}
+
+
+def count_trees(n, typ, ops=OPS):
+    key = (n, typ, id(ops))
+    if key not in _count_cache:
+        if n == 0:
+            _count_cache[key] = 1
+        else:
+            tot = 0
+            for kind, rt, args, fam in ops:
+                if rt != typ:
+                    continue
+                for comp in _compositions(n - 1, len(args)):
+                    x = 1
+                    for k, a in zip(comp, args):
+                        x *= count_trees(k, a, ops)
+                    tot += x
+            _count_cache[key] = tot
+    return _count_cache[key]
 
 
 def _mk(kind, ch):
